@@ -229,47 +229,68 @@ theorem getBlock_hash_none (H : Key → Data → Prop) (cfg : Cfg) (st : Store) 
           · exact storeH_put hs hb
           · exact ⟨by rintro a b rfl; exact hb, storeH_put hs hb⟩
 
-theorem getBlocks_trace (cfg : Cfg) (st : Store) (ks : List Cid) (ans : Option (List Blk)) (nf pf : Option Nat) :
-    cachedOk st (getBlocks cfg st ks ans nf pf).2 = true ∧ reqOk st (getBlocks cfg st ks ans nf pf).2 = true := by
+theorem emits_ok (st : Store) : ∀ (bs : List Blk), (∀ b ∈ bs, st.has b.1.mh = true) →
+    cachedOk st (bs.map Ev.emit) = true ∧ reqOk st (bs.map Ev.emit) = true := by
+  intro bs
+  induction bs with
+  | nil => intro _; simp [cachedOk, reqOk]
+  | cons b r ih =>
+    intro h
+    have := ih (fun b' hb' => h b' (by simp [hb']))
+    simp [cachedOk, reqOk, h b (by simp), this]
+
+/-- cached-before-emit holds whatever the blockstore reads do (`rd`) -/
+theorem getBlocks_cached (cfg : Cfg) (st : Store) (ks : List Cid) (ans : Option (List Blk)) (nf pf : Option Nat)
+    (rd : Nat → Bool) : cachedOk st (getBlocks cfg st ks ans nf pf rd).2 = true := by
   unfold getBlocks
-  have hhit : cachedOk st ((splitLocal st (filterKeys cfg.al ks)).1.map Ev.emit) = true ∧
-      reqOk st ((splitLocal st (filterKeys cfg.al ks)).1.map Ev.emit) = true := by
-    have : ∀ (bs : List Blk), (∀ b ∈ bs, st.has b.1.mh = true) →
-        cachedOk st (bs.map Ev.emit) = true ∧ reqOk st (bs.map Ev.emit) = true := by
-      intro bs
-      induction bs with
-      | nil => intro _; simp [cachedOk, reqOk]
-      | cons b r ih =>
-        intro h
-        have := ih (fun b' hb' => h b' (by simp [hb']))
-        simp [cachedOk, reqOk, h b (by simp), this]
-    exact this _ (fun b hb => get_some_has (mem_splitLocal_hits hb).2)
-  have hmiss : ((splitLocal st (filterKeys cfg.al ks)).2.all fun c => !st.has c.mh) = true := by
-    simp only [List.all_eq_true]
-    intro c hc
-    simp [get_none_has (mem_splitLocal_misses hc).2]
+  have hhit := (emits_ok st _ (fun b hb => get_some_has
+    (mem_splitLocalR_hits (st := st) (rd := rd) (i := 0) (ks := filterKeys cfg.al ks) hb).2)).1
   simp only []
   split
   · exact hhit
   · cases ans with
     | none =>
       simp only []
-      rw [cachedOk_append, reqOk_append, replay_map_emit]
-      simp [hhit, cachedOk, reqOk, hmiss]
+      rw [cachedOk_append, replay_map_emit]
+      simp [hhit, cachedOk]
     | some bs =>
-      have hf := fetchLoop_cached cfg.fixed (splitLocal st (filterKeys cfg.al ks)).2 bs st nf pf
+      have hf := fetchLoop_cached cfg.fixed (splitLocalR st rd 0 (filterKeys cfg.al ks)).2 bs st nf pf
       simp only [List.append_assoc]
-      rw [cachedOk_append, reqOk_append, replay_map_emit]
-      simp [hhit, cachedOk, reqOk, hmiss, hf]
+      rw [cachedOk_append, replay_map_emit]
+      simp [hhit, cachedOk, hf]
+
+/-- local-first needs the reads to succeed: a stored block whose Get failed IS requested (by design) -/
+theorem getBlocks_req (cfg : Cfg) (st : Store) (ks : List Cid) (ans : Option (List Blk)) (nf pf : Option Nat)
+    (rd : Nat → Bool) (hrd : ∀ j, rd j = true) : reqOk st (getBlocks cfg st ks ans nf pf rd).2 = true := by
+  unfold getBlocks
+  have hhit := (emits_ok st _ (fun b hb => get_some_has
+    (mem_splitLocalR_hits (st := st) (rd := rd) (i := 0) (ks := filterKeys cfg.al ks) hb).2)).2
+  have hmiss : ((splitLocalR st rd 0 (filterKeys cfg.al ks)).2.all fun c => !st.has c.mh) = true := by
+    simp only [List.all_eq_true]
+    intro c hc
+    simp [get_none_has ((mem_splitLocalR_misses hc).2 hrd)]
+  simp only []
+  split
+  · exact hhit
+  · cases ans with
+    | none =>
+      simp only []
+      rw [reqOk_append, replay_map_emit]
+      simp [hhit, reqOk, hmiss]
+    | some bs =>
+      have hf := fetchLoop_cached cfg.fixed (splitLocalR st rd 0 (filterKeys cfg.al ks)).2 bs st nf pf
+      simp only [List.append_assoc]
+      rw [reqOk_append, replay_map_emit]
+      simp [hhit, reqOk, hmiss, hf]
 
 theorem getBlocks_requested (cfg : Cfg) (hfix : cfg.fixed = true) (st : Store) (ks : List Cid)
-    (ans : Option (List Blk)) (nf pf : Option Nat) :
-    ∀ b ∈ emitted (getBlocks cfg st ks ans nf pf).2, b.1 ∈ ks ∧ valid cfg.al b.1 = true := by
+    (ans : Option (List Blk)) (nf pf : Option Nat) (rd : Nat → Bool) :
+    ∀ b ∈ emitted (getBlocks cfg st ks ans nf pf rd).2, b.1 ∈ ks ∧ valid cfg.al b.1 = true := by
   unfold getBlocks
-  have hh : ∀ b ∈ (splitLocal st (filterKeys cfg.al ks)).1, b.1 ∈ ks ∧ valid cfg.al b.1 = true :=
-    fun b hb => mem_filterKeys (mem_splitLocal_hits hb).1
-  have hm : ∀ c ∈ (splitLocal st (filterKeys cfg.al ks)).2, c ∈ ks ∧ valid cfg.al c = true :=
-    fun c hc => mem_filterKeys (mem_splitLocal_misses hc).1
+  have hh : ∀ b ∈ (splitLocalR st rd 0 (filterKeys cfg.al ks)).1, b.1 ∈ ks ∧ valid cfg.al b.1 = true :=
+    fun b hb => mem_filterKeys (mem_splitLocalR_hits hb).1
+  have hm : ∀ c ∈ (splitLocalR st rd 0 (filterKeys cfg.al ks)).2, c ∈ ks ∧ valid cfg.al c = true :=
+    fun c hc => mem_filterKeys (mem_splitLocalR_misses hc).1
   simp only []
   split
   · intro b hb; rw [emitted_map_emit] at hb; exact hh b hb
@@ -286,12 +307,12 @@ theorem getBlocks_requested (cfg : Cfg) (hfix : cfg.fixed = true) (st : Store) (
       · exact hm _ ((fetchLoop_emitted cfg.fixed _ bs st nf pf b hb).2 hfix)
 
 theorem getBlocks_hash (H : Key → Data → Prop) (cfg : Cfg) (st : Store) (ks : List Cid)
-    (ans : Option (List Blk)) (nf pf : Option Nat) (hs : storeH H st)
+    (ans : Option (List Blk)) (nf pf : Option Nat) (rd : Nat → Bool) (hs : storeH H st)
     (hans : ∀ bs, ans = some bs → ∀ b ∈ bs, H b.1.mh b.2) :
-    (∀ b ∈ emitted (getBlocks cfg st ks ans nf pf).2, H b.1.mh b.2) ∧ storeH H (getBlocks cfg st ks ans nf pf).1 := by
+    (∀ b ∈ emitted (getBlocks cfg st ks ans nf pf rd).2, H b.1.mh b.2) ∧ storeH H (getBlocks cfg st ks ans nf pf rd).1 := by
   unfold getBlocks
-  have hh : ∀ b ∈ (splitLocal st (filterKeys cfg.al ks)).1, H b.1.mh b.2 :=
-    fun b hb => hs _ _ (mem_splitLocal_hits hb).2
+  have hh : ∀ b ∈ (splitLocalR st rd 0 (filterKeys cfg.al ks)).1, H b.1.mh b.2 :=
+    fun b hb => hs _ _ (mem_splitLocalR_hits hb).2
   simp only []
   split
   · exact ⟨fun b hb => hh b (by simpa [emitted_map_emit] using hb), hs⟩
@@ -405,30 +426,64 @@ theorem getBlock_cases (cfg : Cfg) (st : Store) (c : Cid) (ans : Option Blk) (nO
   · subst h; exact getBlock_fail cfg st c ans nOk
   · left; exact getBlock_pf cfg st c ans nOk h
 
-theorem getBlock_trace (cfg : Cfg) (st : Store) (c : Cid) (ans : Option Blk) (nOk : Bool) (pf : Option Nat) :
-    cachedOk st (getBlock cfg st c ans nOk pf).2.2 = true ∧ reqOk st (getBlock cfg st c ans nOk pf).2.2 = true := by
+theorem getBlock_trace (cfg : Cfg) (st : Store) (c : Cid) (ans : Option Blk) (nOk : Bool) (pf : Option Nat)
+    (rdOk : Bool) :
+    cachedOk st (getBlock cfg st c ans nOk pf rdOk).2.2 = true ∧ reqOk st (getBlock cfg st c ans nOk pf rdOk).2.2 = true := by
+  cases rdOk with
+  | false => rw [(getBlock_rd_false cfg st c ans nOk pf).2.1]; simp [cachedOk, reqOk]
+  | true =>
   rcases getBlock_cases cfg st c ans nOk pf with h | ⟨blk, h, hg⟩
   · rw [h]; exact getBlock_trace_none cfg st c ans nOk
   · rw [h]; simp [cachedOk, reqOk, get_none_has hg]
 
 theorem getBlock_requested (cfg : Cfg) (hfix : cfg.fixed = true) (st : Store) (c : Cid) (ans : Option Blk) (nOk : Bool)
-    (pf : Option Nat) :
-    ∀ b ∈ emitted (getBlock cfg st c ans nOk pf).2.2, b.1 = c ∧ (getBlock cfg st c ans nOk pf).2.1 = .blk b := by
+    (pf : Option Nat) (rdOk : Bool) :
+    ∀ b ∈ emitted (getBlock cfg st c ans nOk pf rdOk).2.2,
+      b.1 = c ∧ (getBlock cfg st c ans nOk pf rdOk).2.1 = .blk b := by
+  cases rdOk with
+  | false => rw [(getBlock_rd_false cfg st c ans nOk pf).2.1]; simp [emitted]
+  | true =>
   rcases getBlock_cases cfg st c ans nOk pf with h | ⟨blk, h, _⟩
   · rw [h]; exact getBlock_requested_none cfg hfix st c ans nOk
   · rw [h]; simp [emitted]
 
 theorem getBlock_hash (H : Key → Data → Prop) (cfg : Cfg) (st : Store) (c : Cid) (ans : Option Blk) (nOk : Bool)
-    (pf : Option Nat) (hs : storeH H st) (hans : ∀ b, ans = some b → H b.1.mh b.2) :
-    (∀ b ∈ emitted (getBlock cfg st c ans nOk pf).2.2, H b.1.mh b.2) ∧ storeH H (getBlock cfg st c ans nOk pf).1 := by
+    (pf : Option Nat) (rdOk : Bool) (hs : storeH H st) (hans : ∀ b, ans = some b → H b.1.mh b.2) :
+    (∀ b ∈ emitted (getBlock cfg st c ans nOk pf rdOk).2.2, H b.1.mh b.2) ∧
+    storeH H (getBlock cfg st c ans nOk pf rdOk).1 := by
+  cases rdOk with
+  | false =>
+    have := getBlock_rd_false cfg st c ans nOk pf
+    rw [this.1, this.2.1]; simp [emitted]; exact hs
+  | true =>
   rcases getBlock_cases cfg st c ans nOk pf with h | ⟨blk, h, _⟩
   · rw [h]; exact getBlock_hash_none H cfg st c ans nOk hs hans
   · rw [h]; simp [emitted]; exact hs
 
 theorem getBlock_result_emitted (cfg : Cfg) (st : Store) (c : Cid) (ans : Option Blk) (nOk : Bool) (pf : Option Nat)
-    (b : Blk) (h : (getBlock cfg st c ans nOk pf).2.1 = .blk b) : b ∈ emitted (getBlock cfg st c ans nOk pf).2.2 := by
+    (rdOk : Bool) (b : Blk) (h : (getBlock cfg st c ans nOk pf rdOk).2.1 = .blk b) :
+    b ∈ emitted (getBlock cfg st c ans nOk pf rdOk).2.2 := by
+  cases rdOk with
+  | false => exact absurd h ((getBlock_rd_false cfg st c ans nOk pf).2.2 b)
+  | true =>
   rcases getBlock_cases cfg st c ans nOk pf with h' | ⟨blk, h', _⟩
   · rw [h'] at h ⊢; exact getBlock_result_emitted_none cfg st c ans nOk b h
   · rw [h'] at h; simp at h
+
+/-- with the (only) write of GetBlock failing, whatever is handed out was read from the local store -/
+theorem getBlock_fail_local (cfg : Cfg) (st : Store) (c : Cid) (ans : Option Blk) (nOk : Bool) :
+    ∀ x ∈ emitted (getBlock cfg st c ans nOk (some 0) true).2.2, st.get x.1.mh = some x.2 := by
+  intro x hx
+  unfold getBlock at hx
+  cases hv : validate cfg.al c.code c.len <;> simp [hv, emitted] at hx
+  cases hg : st.get c.mh with
+  | some d => simp [hg, emitted] at hx; subst hx; exact hg
+  | none =>
+    simp only [hg] at hx
+    split at hx
+    · simp [emitted] at hx
+    · cases ans with
+      | none => simp [emitted] at hx
+      | some blk => simp only [] at hx; split at hx <;> simp [emitted] at hx
 
 end C05
